@@ -70,6 +70,20 @@ func (e *gfP) Unmarshal(in []byte) {
 	}
 }
 
+// isCanonical reports whether e, read as a plain (not Montgomery-encoded)
+// number, is below the field prime p.
+func (e *gfP) isCanonical() bool {
+	for i := 3; i >= 0; i-- {
+		if e[i] < p2[i] {
+			return true
+		}
+		if e[i] > p2[i] {
+			return false
+		}
+	}
+	return false
+}
+
 func montEncode(c, a *gfP) { gfpMul(c, a, r2) }
 func montDecode(c, a *gfP) { gfpMul(c, a, &gfP{1}) }
 
